@@ -141,6 +141,31 @@ class Executor(Engine):
             for t, p in zip(tgt.elts, tuple_parts(val)):
                 st = self.assign(t, p, st, results, line)
             return st
+        if isinstance(tgt, ast.Subscript) and isinstance(tgt.value, ast.Name) and isinstance(tgt.slice, ast.Slice):
+            name = tgt.value.id
+            base = st.env[name]
+            if not isinstance(base.ty, TList) or not isinstance(val.ty, TList) or tgt.slice.step is not None:
+                raise OutOfSubset(f'slice assignment at line {line}')
+            ctx = self.new_ctx(st, line)
+            lt = base.ty
+            n = list_len(base)
+            sl = tgt.slice
+            lo = z3.IntVal(0) if sl.lower is None else clamp_index(to_int(self.ev.unwrap_opt(self.ev.ev(sl.lower, ctx), ctx)), n)
+            hi = n if sl.upper is None else clamp_index(to_int(self.ev.unwrap_opt(self.ev.ev(sl.upper, ctx), ctx)), n)
+            hi = z3.If(hi < lo, lo, hi)
+            m = list_len(val)
+            r = fresh('sliceasg', lt.sort())
+            k = fresh('k', z3.IntSort())
+            ra, ba, va = lt.arr(r), lt.arr(base.t), val.ty.arr(val.t)
+            ctx.assume(lt.n(r) == n - (hi - lo) + m)
+            ctx.assume(z3.ForAll([k], z3.Implies(z3.And(0 <= k, k < lo), z3.Select(ra, k) == z3.Select(ba, k))))
+            ctx.assume(z3.ForAll([k], z3.Implies(z3.And(lo <= k, k < lo + m),
+                                                 z3.Select(ra, k) == coerce(V(val.ty.elem, z3.Select(va, k - lo)), lt.elem).t)))
+            ctx.assume(z3.ForAll([k], z3.Implies(z3.And(lo + m <= k, k < n - (hi - lo) + m),
+                                                 z3.Select(ra, k) == z3.Select(ba, k - m + (hi - lo)))))
+            st2 = self.commit(st, ctx, results).fork()
+            st2.env[name] = V(lt, r)
+            return st2
         if isinstance(tgt, ast.Subscript) and isinstance(tgt.value, ast.Name):
             name = tgt.value.id
             base = st.env[name]
@@ -621,6 +646,9 @@ class Executor(Engine):
             g, a = self.spec_bool(text, env, old=old, ghosts=c.ghost_vals)
             pc += a + [g]
             req_terms.append(g)
+        for lab, text in _labelled(self.axioms):
+            g, a = self.spec_bool(text, {}, old={}, ghosts={})
+            pc += a + [g]
         c.pre_pc = list(pc)
         st = State(env, pc, z3.K(c.bag_ty.elem.sort(), z3.IntVal(0)) if c.bag_ty else None, old)
         exits = self.exec_block(fnode.body, st)
@@ -764,3 +792,29 @@ def copy_load(t):
         if hasattr(x, 'ctx'):
             x.ctx = ast.Load()
     return n
+
+
+def make_engine(modname, repo=None):
+    """build an Executor for contracts/<modname>.py: -> (engine, contracts, function nodes, source hashes, errors)"""
+    import importlib
+    from . import extract
+    m = importlib.import_module('contracts.' + modname)
+    cons = {q: Contract(q, d, m.ALIASES) for q, d in m.C.items()}
+    eng = Executor(cons, m.ALIASES, getattr(m, 'MACROS', {}), getattr(m, 'GLOBALS', {}))
+    eng.exc_parents = getattr(m, 'EXC_PARENTS', {})
+    eng.funcs = getattr(m, 'FUNCS', {})
+    eng.axioms = getattr(m, 'AXIOMS', [])
+    eng.sigs = {}
+    nodes, shas, errors = {}, {}, []
+    for q, c in cons.items():
+        if c.d.get('external'):
+            continue
+        try:
+            node, seg, sha, path = extract.find(q, repo or extract.REPO)
+        except KeyError as e:
+            errors.append(f'target missing: {e}')
+            continue
+        nodes[q] = node
+        shas[q] = sha
+        eng.sigs[q] = extract.signature_defaults(node)
+    return eng, cons, nodes, shas, errors
